@@ -39,6 +39,9 @@ type Solver struct {
 	Time     time.Duration
 	Errors   []string
 	log      io.Writer
+	// per-query limit the process was started with, and how often a query was asked again with a longer one
+	timeoutMs int
+	Retries   int
 }
 
 func solverArgv(name string, timeoutMs int) []string {
@@ -66,7 +69,7 @@ func NewSolver(name string, timeoutMs int, log io.Writer) (*Solver, error) {
 	if err := cmd.Start(); err != nil {
 		return nil, err
 	}
-	s := &Solver{name: name, cmd: cmd, in: in, w: bufio.NewWriterSize(in, 1<<16), out: bufio.NewReaderSize(outp, 1<<16), declared: map[string]Sort{}, log: log}
+	s := &Solver{name: name, cmd: cmd, in: in, w: bufio.NewWriterSize(in, 1<<16), out: bufio.NewReaderSize(outp, 1<<16), declared: map[string]Sort{}, log: log, timeoutMs: timeoutMs}
 	s.prelude()
 	return s, nil
 }
@@ -191,7 +194,23 @@ func (s *Solver) Assert(t *Term) {
 	s.send("(assert " + t.S + ")")
 }
 
+// Check decides the current assertion stack. An `unknown` that comes from the per-query time limit (a loaded
+// machine is enough) is asked once more with six times the limit before it is reported: an unknown ends the run
+// as INCONCLUSIVE, which must not depend on how busy the machine is.
 func (s *Solver) Check() SatResult {
+	r := s.checkOnce()
+	if r == Unknown && len(s.Errors) == 0 && s.timeoutMs > 0 && (s.name == "z3" || s.name == "z3-new") {
+		s.send(fmt.Sprintf("(set-option :timeout %d)", 6*s.timeoutMs))
+		s.NUnknown--
+		s.NCheck--
+		s.Retries++
+		r = s.checkOnce()
+		s.send(fmt.Sprintf("(set-option :timeout %d)", s.timeoutMs))
+	}
+	return r
+}
+
+func (s *Solver) checkOnce() SatResult {
 	start := time.Now()
 	s.send("(check-sat)")
 	var r SatResult
